@@ -25,7 +25,7 @@ PROP = "C07"
 LEVEL = "fault_enumeration"
 FLAVOUR = "plain"
 FLAVOURS = ["plain", "san"]
-TIERS = {"quick": (9000, 170), "thorough": (400000, 3300)}
+TIERS = {"quick": (18000, 170), "thorough": (1000000, 3300)}
 RULE_TEXT = ("one run = (A) one generated chart with one planted failing element (kind and position drawn from every executable block: onentry, onexit, transition, "
              "initial/history transition, nested <if>, <data>) x one event history, refined against the reference model that knows the failing element, or "
              "(B) one seeded XML mutation of a generated chart loaded and stepped under crash containment; a third of the runs use the ASan+UBSan build; "
@@ -97,7 +97,7 @@ def gen_plan(seed, k):
     engine = rp.choice(["default", "large", "fast"]) if mode == "B" else "default"
     ops = [{"op": "create", "i": 0, "chart": "main", "engine": engine}, {"op": "validate", "i": 0}] + p_c01.history_ops(rp)
     return {"id": k, "seed": seed, "entropy_seed": seed & 0x7fffffff, "mode": mode, "flavour": flavour, "planted": planted,
-            "sched": {"seed": seed & 0x7fffffff, "policy": "nonpreempt", "max_decisions": 400000}, "step_budget": 900,
+            "sched": {"seed": seed & 0x7fffffff, "policy": "nonpreempt", "max_decisions": 400000}, "step_budget": 200,
             "charts": {"main": xml}, "actors": {"main": ops}}
 
 
